@@ -12,7 +12,9 @@ pub fn gen(r: &mut Rng) -> Value {
         "x = set \"unterminated", "echo hi\nexit 65536", "assert false", ":L out = set 1", "Out = set 1", "out = Set 1", ":Lbl x = set 1", "if true\nend",
         // text the tool must hand to the library untouched: escapes, quotes, references, comment signs
         "out = set \"line1\\nline2\"", "out = array a\\nexit 7", "x = set a\\tb\\\\c", "x = set ${y}\nexit 2", "x = set \"# not a comment\"\nexit 0", "x = set 1 # exit 3",
-        "x = set \\${y}", "  exit 4  ", "\nexit 5\n", "exit 6\r\n", "x = set %{y}\nassert ${x}",
+        "x = set \\${y}", "  exit 4  ",
+        // scripts that look at the whole variable table / handle table: the tool must start them like the library does (empty)
+        "names = get_all_var_names\nn = array_length ${names}\nassert_eq ${n} 0", "names = get_all_var_names\ne = array_is_empty ${names}\nassert ${e}\nexit 9", "\nexit 5\n", "exit 6\r\n", "x = set %{y}\nassert ${x}",
     ];
     if r.chance(1, 3) {
         // lint: a few lines of every shape (label / output / command alone or combined, either case)
